@@ -143,7 +143,9 @@ fn second(net: &mut Net<Packet>, check: bool, allowed_extra: &mut Vec<Vec<u8>>, 
 
 /// Kind of a captured datagram: ping/pong/peng (parsed with the trusted key) or sealed.
 fn kind_of(data: &[u8]) -> String {
-    if data.first() == Some(&0xff) {
+    if data.is_empty() {
+        "empty".to_string()
+    } else if data.first() == Some(&0xff) {
         let c = mk_crypto(node_id(9), &cfg_with_key(0, &[0], &[]), [1.0, 1.0, 1.0]).unwrap();
         match cv::init_verif::read_from(&data[1..], c.verif_trusted_keys()) {
             Ok((m, _)) => ["?", "ping", "pong", "peng"][cv::init_verif::msg_stage(&m) as usize].to_string(),
@@ -156,6 +158,9 @@ fn kind_of(data: &[u8]) -> String {
 
 fn mutate(data: &[u8], variant: &str) -> Vec<u8> {
     let mut d = data.to_vec();
+    if d.is_empty() {
+        return d; // nodes do emit empty datagrams (handshake "Continue" without reply); nothing to edit
+    }
     match variant {
         "verbatim" => {}
         "counter+1" | "counter+1000" => {
@@ -164,6 +169,11 @@ fn mutate(data: &[u8], variant: &str) -> Vec<u8> {
                 let v = d[k] as u32 + carry;
                 d[k] = v as u8;
                 carry = v >> 8;
+            }
+        }
+        "counter_max" => {
+            for k in 1..8.min(d.len()) {
+                d[k] = 0xff;
             }
         }
         "keyid^4" => d[0] ^= 4,
@@ -240,6 +250,13 @@ pub fn run_case(c: &Case) -> CaseResult {
     // inject
     let kind = kind_of(&w.data);
     let data = mutate(&w.data, &c.variant);
+    if c.variant != "verbatim" {
+        // an "edit" that the zero-filled receive buffer turns back into the genuine datagram is the verbatim case
+        let n = data.len().min(w.data.len());
+        if data[..n] == w.data[..n] && w.data[n..].iter().all(|b| *b == 0) {
+            return Ok(0);
+        }
+    }
     let to = if c.target == "sender" { net.node_index(&w.from) } else { net.node_index(&w.to) };
     let to = match to {
         Some(t) => t,
@@ -259,6 +276,10 @@ pub fn run_case(c: &Case) -> CaseResult {
         },
         _ => addr_of(999),
     };
+    // the statement protects CONNECTED, healthy nodes: an injection before the mesh is complete is outside it
+    if !net.fully_meshed() {
+        return Ok(0);
+    }
     // a replayed data datagram may be delivered once more inside the replay window (C03): its payload is one of the
     // probe packets sent so far - allow exactly one extra copy of any earlier probe packet
     let before_frames: Vec<Vec<u8>> = (0..net.nodes.len()).flat_map(|j| net.pop_frames(j)).collect();
@@ -268,7 +289,22 @@ pub fn run_case(c: &Case) -> CaseResult {
     if let Err(p) = r {
         return Err(tag(Fail::from_panic(&p)));
     }
+    let trace = std::env::var("VERIF_TRACE").is_ok();
+    if trace {
+        eprintln!("injected {} ({} bytes) to node {} claiming {} at start+{}", kind, data.len(), to, from, net.now - START_TIME);
+        for i in 0..net.nodes.len() {
+            eprintln!("  node {}: {}", i, net.routing_snapshot(i));
+        }
+        for w in net.queue.iter() {
+            eprintln!("  queued {} -> {} {} bytes kind {}", w.from, w.to, w.data.len(), kind_of(&w.data));
+        }
+    }
     net.deliver_all(512);
+    if trace {
+        for i in 0..net.nodes.len() {
+            eprintln!("  after delivery node {}: {}", i, net.routing_snapshot(i));
+        }
+    }
     // what the injection itself delivered (at most one earlier probe packet, byte-identical)
     for j in 0..net.nodes.len() {
         let got = net.pop_frames(j);
@@ -299,9 +335,9 @@ fn cases(tier: Tier) -> Vec<Case> {
             let sources: &[&str] = if *sc == "three" { &["original", "other_peer", "unknown"] } else { &["original", "unknown"] };
             let variants: Vec<&str> = if kind == "sealed" {
                 if tier == Tier::Quick {
-                    vec!["verbatim", "counter+1", "keyid^1"]
+                    vec!["verbatim", "counter+1", "counter_max", "keyid^1"]
                 } else {
-                    vec!["verbatim", "counter+1", "counter+1000", "keyid^1", "flip_last", "trunc-1"]
+                    vec!["verbatim", "counter+1", "counter+1000", "counter_max", "keyid^1", "flip_last", "trunc-1"]
                 }
             } else if tier == Tier::Quick {
                 vec!["verbatim", "stage"]
